@@ -401,11 +401,11 @@ def gen_numbers(rng, tier):
         xs += [float(2 ** k), float(2 ** k + 2 ** (k - 52)), -float(3 * 2 ** (k - 1))]
     xs += [float(10 ** k) for k in range(0, 23)] + [float(10 ** k + 10 ** (k - 15)) for k in range(16, 23)]
     # integer-valued and short decimals
-    for _ in range(700 if not big else 20000):
+    for _ in range(450 if not big else 20000):
         xs.append(float(rng.randrange(-10 ** rng.randrange(1, 17), 10 ** rng.randrange(1, 17))))
         xs.append(rng.randrange(1, 10 ** rng.randrange(1, 8)) / 10 ** rng.randrange(0, 12))
     # random bit patterns, exponent field uniform
-    n_rand = 3500 if not big else 600000
+    n_rand = 2400 if not big else 600000
     for _ in range(n_rand):
         e = rng.randrange(0, 2047)
         m = rng.getrandbits(52)
@@ -564,7 +564,7 @@ def gen_size_docs(rng):
 
 def gen_docs(rng, tier, numbers, ints):
     finite = [x for x in numbers if x == x and x not in (math.inf, -math.inf)]
-    n = 1000 if tier != "thorough" else 8000
+    n = 800 if tier != "thorough" else 8000
     groups = []          # list of lists of values (first = base, rest = deep shuffles)
     for v in FIXED_DOCS + gen_size_docs(rng):
         groups.append([v])
